@@ -1,0 +1,54 @@
+//go:build verif
+
+package jmespath
+
+// Contracts for the contract-based deductive verification in /verif.
+// This file contains comments only. Grammar (one clause per line, "//@ .."
+// continues the previous line):
+//
+//	//@ func <name>            function or method, e.g. slice, (*Lexer).next
+//	//@   props C05,C08        default property tags of the automatic obligations
+//	//@   requires {tags} [label] <expr>
+//	//@   ensures  {tags} [label] <expr>
+//	//@   assigns  Type.field, ...   | assigns \nothing
+//	//@   decreases <expr>
+//	//@   loop <k> invariant|decreases <expr>     (k-th loop in source order)
+//
+// Expressions are Go expressions over the parameters, `result`/`err`, spec
+// functions from verif_spec.go, plus ==> <==> forall/exists old(e) len(e).
+
+// ---------------------------------------------------------------------------
+// util.go — slices (C08)
+
+//@ func capSlice
+//@   props C05,C08
+//@   requires 0 <= length
+//@   ensures {C08} [python-clamp] result == specCapSlice(length, actual, step)
+//@   ensures {C08,C05} [range-neg-step] step < 0 ==> -1 <= result && result <= length-1
+//@   ensures {C08,C05} [range-pos-step] step >= 0 ==> 0 <= result && result <= length
+//@   assigns \nothing
+
+//@ func computeSliceParams
+//@   props C05,C08
+//@   requires 0 <= length
+//@   requires len(parts) == 3
+//@   ensures {C08} [step-zero-is-error] (err != nil) <==> (parts[2].Specified && parts[2].N == 0)
+//@   ensures {C08} [three-results] err == nil ==> len(result) == 3
+//@   ensures {C08} [start] err == nil ==> result[0] == specSliceStart(length, parts)
+//@   ensures {C08} [stop] err == nil ==> result[1] == specSliceStop(length, parts)
+//@   ensures {C08} [step] err == nil ==> result[2] == specSliceStep(parts) && result[2] != 0
+//@   ensures {C08,C05} [bounds-pos] err == nil && result[2] > 0 ==> 0 <= result[0] && result[0] <= length && 0 <= result[1] && result[1] <= length
+//@   ensures {C08,C05} [bounds-neg] err == nil && result[2] < 0 ==> -1 <= result[0] && result[0] <= length-1 && -1 <= result[1] && result[1] <= length-1
+//@   assigns \nothing
+
+//@ func slice
+//@   props C05,C08
+//@   requires len(parts) == 3
+//@   ensures {C08} [step-zero-is-error] (err != nil) <==> (parts[2].Specified && parts[2].N == 0)
+//@   ensures {C08} [python-slice] err == nil ==> result == specPySlice(slice, parts)
+//@   ensures {C16} [non-nil-result] err == nil ==> !isNil(result)
+//@   assigns \nothing
+//@   loop 1 invariant [walk] !isNil(result) && 0 <= i && stop <= len(slice) && step > 0 && specWalkUp(slice, i, stop, step, result) == specWalkUp(slice, start, stop, step, specEmptyList())
+//@   loop 1 decreases stop - i
+//@   loop 2 invariant [walk] !isNil(result) && i <= len(slice)-1 && -1 <= stop && step < 0 && specWalkDown(slice, i, stop, step, result) == specWalkDown(slice, start, stop, step, specEmptyList())
+//@   loop 2 decreases i - stop
